@@ -39,6 +39,7 @@ type mconf struct {
 	seed  uint64 // button schedule seed
 	audio bool
 	video bool // a display attached (the stub of the verif build): runFrame renders and polls it
+	dbg   bool // Config.DebugLCD
 }
 
 var mconfs = map[string]mconf{}
@@ -68,27 +69,47 @@ type inst struct {
 	frame  int
 	exited bool
 	h      uint64 // running digest of per-frame observations
+	core   uint64 // the same without the audio samples (must not depend on which outputs are attached)
+	state  uint64 // ... and without the pixels (Config.DebugLCD changes the picture by design: 256x256, tinted)
+	writer func(p []byte) (int, error)
 }
 
-func newInst(c mconf) *inst {
+func newInst(c mconf) *inst { return newInstW(c, nil) }
+
+// slow: if non-nil it is called with the number of serial bytes delivered so far, before each delivery
+func newInstW(c mconf, slow func(n int)) *inst {
 	w := &bytes.Buffer{}
-	gb := gameboy.New(gameboy.Config{RomFilename: c.rom, DisableVideoOutput: !c.video, DisableAudioOutput: !c.audio, SerialWriter: w})
-	if c.video {
-		gb.VerifParts().Display.CloseAfter = 1 << 30
+	in := &inst{conf: c, serial: w, h: 1469598103934665603, core: 1469598103934665603, state: 1469598103934665603}
+	var sw interface {
+		Write(p []byte) (int, error)
+	} = w
+	if slow != nil {
+		sw = writerFunc(func(p []byte) (int, error) {
+			slow(w.Len())
+			return w.Write(p)
+		})
 	}
-	return &inst{gb: gb, conf: c, serial: w, h: 1469598103934665603}
+	in.gb = gameboy.New(gameboy.Config{RomFilename: c.rom, DisableVideoOutput: !c.video, DisableAudioOutput: !c.audio, SerialWriter: sw,
+		DebugLCD: c.dbg})
+	return in
 }
 
-func (in *inst) mix(b []byte) {
+func mix1(acc uint64, b []byte) uint64 {
 	h := fnv.New64a()
 	var seed [8]byte
 	for i := 0; i < 8; i++ {
-		seed[i] = byte(in.h >> (8 * uint(i)))
+		seed[i] = byte(acc >> (8 * uint(i)))
 	}
 	h.Write(seed[:])
 	h.Write(b)
-	in.h = h.Sum64()
+	return h.Sum64()
 }
+
+func (in *inst) mix(b []byte) {
+	in.h, in.core, in.state = mix1(in.h, b), mix1(in.core, b), mix1(in.state, b)
+}
+func (in *inst) mixAudio(b []byte) { in.h = mix1(in.h, b) }
+func (in *inst) mixPix(b []byte)   { in.h, in.core = mix1(in.h, b), mix1(in.core, b) }
 
 // would the next machine cycle execute one of the 11 undefined opcodes (os.Exit in the real code)?
 func (in *inst) aboutToExit() bool {
@@ -144,7 +165,7 @@ func (in *inst) stepFrame(useRunFrame bool) {
 func (in *inst) observeFrame() {
 	in.frame++
 	p := in.gb.VerifParts()
-	in.mix(p.PPU.Frame().Pix)
+	in.mixPix(p.PPU.Frame().Pix)
 	if p.Speakers != nil {
 		var buf bytes.Buffer
 		drain := func(ch chan float32, tag byte) {
@@ -156,10 +177,22 @@ func (in *inst) observeFrame() {
 		}
 		drain(p.Speakers.Left(), 'l')
 		drain(p.Speakers.Right(), 'r')
-		in.mix(buf.Bytes())
+		in.mixAudio(buf.Bytes())
 	}
 	s := p.CPU.VerifGet()
 	in.mix([]byte(fmt.Sprintf("%v|%02x%02x", s, p.Interrupts.ReadIF(), p.Interrupts.ReadIE())))
+}
+
+// digestCore: everything but the audio samples; digestState: also without the pixels
+func (in *inst) digestCore() string {
+	in2 := *in
+	in2.h = in.core
+	return in2.digest()
+}
+func (in *inst) digestState() string {
+	in2 := *in
+	in2.h = in.state
+	return in2.digest()
 }
 
 func (in *inst) digest() string {
@@ -324,6 +357,51 @@ func (x *multiRun) do(op string) string {
 			}
 			want := 17556 * frames / 7
 			return fmt.Sprintf("serial-complete=%s in-order=%s", b01(len(b) >= want-2 && len(b) <= want+2), b01(inOrder))
+		case "cfgs": // cfgs <id> <frames>: the same ROM under every output configuration - the emulated machine must not notice
+			c := mconfs[w[1]]
+			base, baseState := "", ""
+			for k := 0; k < 8; k++ {
+				c2 := c
+				c2.audio, c2.video, c2.dbg = k&1 != 0, k&2 != 0, k&4 != 0
+				in := newInst(c2)
+				for f := 0; f < atoi(w[2]); f++ {
+					in.stepFrame(true)
+				}
+				d, want := in.digestCore(), base
+				if c2.dbg { // the debug view is another picture by design: compare the machine state only
+					d, want = in.digestState(), baseState
+				}
+				if k == 0 {
+					base, baseState = d, in.digestState()
+				} else if d != want {
+					return fmt.Sprintf("differ audio=%d video=%d debuglcd=%d %s (headless: %s)", k&1, k>>1&1, k>>2&1, d, want)
+				}
+			}
+			return "same"
+		case "slowwriter": // slowwriter <id> <frames> <k> <ms>: the serial writer stalls <ms> ms before delivering byte k
+			c := mconfs[w[1]]
+			var ds [2]string
+			for j := 0; j < 2; j++ {
+				var slow func(n int)
+				if j == 1 {
+					k, ms, done := atoi(w[3]), atoi(w[4]), false
+					slow = func(n int) {
+						if n >= k && !done {
+							done = true
+							time.Sleep(time.Duration(ms) * time.Millisecond)
+						}
+					}
+				}
+				in := newInstW(c, slow)
+				for f := 0; f < atoi(w[2]); f++ {
+					in.stepFrame(true)
+				}
+				ds[j] = in.digest()
+			}
+			if ds[0] == ds[1] {
+				return "same"
+			}
+			return "differ prompt-writer=" + ds[0] + " stalling-writer=" + ds[1]
 		case "serconc": // serconc <idA> <idB>: instance A's writer is still inside Write when instance B writes SB
 			ca, cb := mconfs[w[1]], mconfs[w[2]]
 			aIn, bDone := make(chan struct{}), make(chan struct{})
@@ -511,6 +589,13 @@ var craftedRoms = map[string][]byte{
 	// ... and with a square channel playing (samples must keep coming)
 	"stopaudio:": {0x3e, 0x80, 0xe0, 0x26, 0x3e, 0x77, 0xe0, 0x24, 0x3e, 0xff, 0xe0, 0x25, 0x3e, 0xf0, 0xe0, 0x12, 0x3e, 0x87, 0xe0, 0x14,
 		0x06, 0x40, 0x05, 0x20, 0xfd, 0x10, 0x00, 0x18, 0xfe},
+	// a picture that changes every frame, scroll registers written and read back, a serial byte per iteration:
+	// loop: INC B; LD A,B; LDH (47),A; LDH (43),A; LDH (42),A; LDH A,(43); LD C,A; LD A,B; LDH (01),A; delay; JR loop
+	"picture:": {0x04, 0x78, 0xe0, 0x47, 0xe0, 0x43, 0xe0, 0x42, 0xf0, 0x43, 0x4f, 0x78, 0xe0, 0x01,
+		0x16, 0xff, 0x15, 0x20, 0xfd, 0x16, 0xff, 0x15, 0x20, 0xfd, 0x18, 0xe6},
+	// sound switched off for an odd number of cycles, on again, channel 1 with a length, NR52 polled into memory
+	"apuoff:": {0xaf, 0xe0, 0x26, 0x06, 0x4b, 0x05, 0x20, 0xfd, 0x3e, 0x80, 0xe0, 0x26, 0x3e, 0x3e, 0xe0, 0x11, 0x3e, 0xf0, 0xe0, 0x12,
+		0x3e, 0xc7, 0xe0, 0x14, 0x21, 0x00, 0xc0, 0xf0, 0x26, 0x22, 0x7c, 0xfe, 0xc8, 0x20, 0xf8, 0x18, 0xfe},
 	// LD A,80; loop: LDH (01),A; INC A; JR loop  -- writes 80 81 82 ... to SB
 	"serial2:": {0x3e, 0x80, 0xe0, 0x01, 0x3c, 0x18, 0xfb},
 	// XOR A; loop: LDH (01),A; INC A; JR loop  -- writes 00 01 02 ... to SB for ever
@@ -583,8 +668,11 @@ func (x *multiRun) frameLoopSuite(nk int) {
 	x.craftedManual("stopirq", "stopirq:", 3)
 	x.craftedManual("stoprtc", "stoprtc:", 3)
 	x.craftedManualAudio("stopaudio", "stopaudio:", 3)
+	x.craftedManual("apuoff", "apuoff:", 3)
 	x.craftedManual("loop5", "loop5:", 4)
 	x.craftedManualA("loop5d", "loop5:", 4, 2) // the same with a display attached
+	x.do("rom pic picture: 0 0")
+	x.do("cfgs pic 4")
 	x.timerPhases(nk)
 }
 
@@ -689,6 +777,11 @@ func multiGen(c *ctx) {
 			x.do(fmt.Sprintf("again %s %d", id, frames))
 			x.do(fmt.Sprintf("sub %s %d", id, frames))
 		}
+		// host timing must not matter: a serial writer that stalls the emulation for 60 ms in the middle of a frame
+		x.do("rom pic picture: 0 0")
+		x.do("slowwriter pic 6 20 60")
+		x.do("cfgs pic 4")
+		c.class("slowwriter")
 	}
 	if prop == "" || prop == "C25" {
 		// cartridges that report through cartridge RAM (blargg) always meet each other
